@@ -154,9 +154,15 @@ Definition children_of (g : list sblock) (i : N) : list N :=
 Definition node_first (ob : bool) (g : list sblock) (x : N) : bool :=
   if ob then (kind_at g x K_NODE && (0 <? child_count g x))%bool else kind_at g x K_NODE.
 
-(* newShapeIndices: value-initialised, slot si := rootShapeOrder[si] when that id is among the shapes *)
+(* std::is_permutation(shapeIndices.begin(), shapeIndices.end(), rootShapeOrder.begin()) on two ranges
+   of the same length: true iff one is a rearrangement of the other *)
+Definition is_permutation_b (a b : list N) : bool :=
+  forallb (fun x => count_eq x a =? count_eq x b) (a ++ b).
+
+(* the order is applied only when it has the size of the shape children and is a permutation of them;
+   newShapeIndices: value-initialised, slot si := rootShapeOrder[si] when that id is among the shapes *)
 Definition shape_order (rso shapes : list N) : list N :=
-  if vlen rso =? vlen shapes
+  if ((vlen rso =? vlen shapes) && is_permutation_b shapes rso)%bool
   then map (fun r => if s_contains shapes r then r else 0) rso
   else shapes.
 
@@ -407,8 +413,8 @@ Definition shape_order_indices (fuel : nat) (ob : bool) (names : list N) (g : li
   let rso := shape_ids g names in
   match root_node g with
   | Some r =>
-    (* sortState.newIndex = GetBlockID(root); SetSortIndices(sortState.newIndex, sortState); *)
-    (sort_run ob rso fuel (CSet r) ;; leftover (length g)) (init_state g r)
+    (* SetSortIndices(GetBlockID(root), sortState); the counter stays 0 *)
+    (sort_run ob rso fuel (CSet r) ;; leftover (length g)) (init_state g 0)
   | None => leftover (length g) (init_state g 0)
   end.
 
